@@ -139,14 +139,27 @@ def lean_phase(cfg, pid, tier, cmds):
     return obligations, problems
 
 
-def build_harness(cmds):
-    with Lock("go"):
-        os.makedirs(os.path.join(HARN, "bin"), exist_ok=True)
+def modfile_args():
+    """development aid: VERIF_REPO=<scratch worktree> builds the harness against that tree
+    (through an alternate go.mod) instead of /repo.  Registered checks never set it."""
+    if os.path.realpath(REPO) == "/repo":
         try:
             shutil.copyfile(os.path.join(REPO, "go.sum"), os.path.join(HARN, "go.sum"))
         except OSError:
             pass
-        b = run(["go", "build", "-tags", "verif", "-ldflags=-checklinkname=0", "-o", "bin/vh", "./cmd/vh"],
+        return []
+    alt = os.path.join(HARN, ".alt.mod")
+    src = open(os.path.join(HARN, "go.mod")).read().replace("=> /repo", "=> " + os.path.realpath(REPO))
+    open(alt, "w").write(src)
+    shutil.copyfile(os.path.join(REPO, "go.sum"), os.path.join(HARN, ".alt.sum"))
+    return ["-modfile=" + alt]
+
+
+def build_harness(cmds):
+    with Lock("go"):
+        os.makedirs(os.path.join(HARN, "bin"), exist_ok=True)
+        mf = modfile_args()
+        b = run(["go", "build"] + mf + ["-tags", "verif", "-ldflags=-checklinkname=0", "-o", "bin/vh", "./cmd/vh"],
                 cwd=HARN, env=GOENV, timeout=3600)
         cmds.append("(cd harness && go build -tags verif -ldflags=-checklinkname=0 -o bin/vh ./cmd/vh)   # replace => /repo")
         if b.returncode != 0:
